@@ -126,11 +126,21 @@ class _Subst(ast.NodeTransformer):
 class Sym:
     """Symbolic view of one path."""
 
-    def __init__(self, path: Path):
+    def __init__(self, path: Path, item_stores: bool = False):
+        """item_stores=True also models `x[i] = v` on a local x as a new definition `__updated__(x, i, v)`, so that a value
+        read out of x afterwards is not mistaken for what x held before the store"""
         self.path = path
         self.defs: List[Tuple[int, Dict[str, ast.AST]]] = []
         for idx, (nid, lab) in enumerate(path.steps):
-            d = defs_of_step(path.cfg.nodes[nid], lab)
+            node = path.cfg.nodes[nid]
+            d = defs_of_step(node, lab)
+            if item_stores and node.kind == 'stmt' and lab != 'exc' and isinstance(node.ast, (ast.Assign, ast.AugAssign)):
+                tgs = node.ast.targets if isinstance(node.ast, ast.Assign) else [node.ast.target]
+                for t in tgs:
+                    if isinstance(t, ast.Subscript) and isinstance(t.value, ast.Name):
+                        d = dict(d)
+                        d[t.value.id] = ast.Call(func=ast.Name(id='__updated__', ctx=ast.Load()),
+                                                 args=[ast.Name(id=t.value.id, ctx=ast.Load()), t.slice, node.ast.value], keywords=[])
             if d:
                 self.defs.append((idx, d))
 
